@@ -7,6 +7,7 @@ for l in open('/verif/properties.jsonl'):
 ROUND2 = '--round2' in sys.argv
 ROUND3 = '--round3' in sys.argv
 ROUND4 = '--round4' in sys.argv
+ROUND5 = '--round5' in sys.argv
 for pid in [a for a in sys.argv[1:] if not a.startswith('--')]:
     p = props[pid]
     R2 = (" This is a SECOND round: an earlier round already produced the most obvious slips for this property (single flipped operators, dropped trims, swapped first/last), so go for subtler ones - interactions between two features, state carried across loop iterations or across blocks/files, rarely taken branches, multi-byte text, boundary positions (first/last line, column 1, end of file), option combinations." if ROUND2 else "")
@@ -14,6 +15,8 @@ for pid in [a for a in sys.argv[1:] if not a.startswith('--')]:
         R2 = " This is a THIRD round: earlier rounds already produced flipped operators, dropped trims, swapped first/last, state leaking across blocks or files, byte-versus-character confusions, concurrency throttles that drop results and caches keyed too coarsely. Look for DIFFERENT mechanisms: error-handling paths (errors swallowed, converted to defaults, or reported for the wrong item), defaults and fallbacks, interactions between two options or two attributes on one block, ordering / sorting / de-duplication steps, collection boundaries (first or last element, empty or single-element collections), integer conversions and saturating arithmetic, path handling (relative versus absolute, sub-directories, unusual but legal file names), and the less central clauses of the property statement."
     if ROUND4:
         R2 = " This is a FOURTH round: earlier rounds already covered flipped operators, dropped trims, state leaking across blocks or files, byte-versus-character confusions, concurrency throttles, caches keyed too coarsely, swallowed errors, de-duplicating ordering steps and integer saturation. Look in the LESS CENTRAL code paths that still matter for this property: language-specific handling (Markdown with its two comment kinds and HTML blocks inside list items or block quotes, XML/HTML, languages with several comment forms), the file-system side (directory walk, symbolic links, how the repository root is found, how relative paths are formed), how command-line arguments are turned into glob sets and options (sub-commands, repeated flags, global flags after the sub-command), `list` versus validation mode, and code that converts between two coordinate systems (node positions to file positions, block-relative to file-relative)."
+    if ROUND5:
+        R2 = " This is a FIFTH round: earlier rounds already covered flipped operators, dropped trims, state leaking across blocks or files, byte-versus-character confusions, concurrency throttles, coarse caches, swallowed errors, de-duplication steps, integer saturation, Markdown/HTML specifics and the file-system side. Look for slips that need TWO things at once: an attribute combined with another attribute on the same block (severity, name, a second rule, a *-pattern attribute), a regex feature (anchors, several groups, an optional or empty `value` group, alternation, a match at the very start or end of a line, an empty match), content shapes (only blank lines, a single line, content that starts on the tag's line, nested blocks whose tag lines are part of the outer content, CRLF line ends, a last line without newline), values at the edge of their type, or environment variables set to unusual but legal values. Also consider code shared between validators (content extraction, line splitting, trimming, position computation) where a change only shows for one of them."
     txt = f"""You are helping to evaluate a verification tool by seeding realistic bugs ("mutations") into a Rust project.
 
 The project is mennanov/blockwatch, a CLI linter that parses <block> tags in source comments (via tree-sitter) and validates rules (keep-sorted, keep-unique, line-pattern, line-count, affects/drift with a git diff on stdin, check-lua, check-ai). You have your OWN scratch git worktree of it at /tmp/seed_{pid} (work ONLY there and in /tmp/seed_{pid}.out; never touch /repo or /verif, and do not read anything under /verif). The sandbox has no network; build with `cd /tmp/seed_{pid} && CARGO_NET_OFFLINE=true cargo build --offline` and test with `CARGO_NET_OFFLINE=true cargo test --offline` (all 237 tests pass on the unmodified tree; first build takes a few minutes). NOTE: the worktree's `.git` is a file, so an empty directory /tmp/seed_{pid}/.hg has been created as the repository-root marker the integration tests need; leave it there. The binary is target/debug/blockwatch. It must run inside a directory tree that has a `.git` directory at its root (an empty `mkdir .git` is enough); a diff is given on stdin (`git diff -U0 | blockwatch list`, or a hand-written unified diff), `blockwatch list` prints blocks as JSON, plain `blockwatch` validates and prints diagnostics JSON on stderr with exit 1 on error-severity violations. When stdin is not a terminal and no glob args are given it expects a diff on stdin; pass globs (e.g. 'x.py') to scan files (use `< /dev/null`).
